@@ -272,6 +272,7 @@ MC_CHUNKING_QUICK = [
     C('ISO-2022-JP', 'off', 'utf8', True, 2, [4, 5, 64], [0x1B, 0x24, 0x28, 0x42, 0x4A, 0x41, 0x21, 0x80]),
     C('UTF-8', 'off', 'utf8', True, 2, [4, 5, 7, 64], [0x41, 0x80, 0xC2, 0xE0, 0xA0, 0xF0, 0x90]),
     C('UTF-8', 'off', 'utf16', False, 2, [2, 3, 64], [0x41, 0x80, 0xC2, 0xE0, 0xA0, 0xF0, 0x90]),
+    C('gb18030', 'off', 'utf8', True, 2, [4, 5, 64], [0x30, 0x41, 0x81, 0x84, 0xFF]),
 ]
 MC_CHUNKING_THOROUGH = MC_CHUNKING_QUICK + [
     C('UTF-8', 'off', 'utf8', True, 3, [4, 5, 6, 7, 64], [0x41, 0x80, 0xBF, 0xC2, 0xE0, 0xA0, 0xED, 0xF0, 0x90, 0xF4, 0xFF]),
@@ -282,6 +283,9 @@ MC_CHUNKING_THOROUGH = MC_CHUNKING_QUICK + [
     C('ISO-2022-JP', 'off', 'utf8', True, 3, [4, 5, 64], [0x1B, 0x24, 0x28, 0x42, 0x4A, 0x41, 0x21, 0x80]),
     C('ISO-2022-JP', 'off', 'utf16', False, 3, [2, 3, 64], [0x0E, 0x1B, 0x24, 0x28, 0x40, 0x42, 0x49, 0x4A, 0x5C, 0x21]),
     C('IBM866', 'off', 'utf8', False, 4, [4, 5, 6, 7, 64], [0x20, 0x3B, 0x41, 0x80, 0xB0, 0xFF]),
+    C('gb18030', 'off', 'utf8', False, 3, [4, 5, 6, 64], [0x30, 0x41, 0x80, 0x81, 0x84, 0xFE, 0xFF]),
+    C('gb18030', 'off', 'utf16', True, 3, [2, 3, 64], [0x30, 0x40, 0x81, 0xA1, 0xE3, 0xFF]),
+    C('GBK', 'sniff', 'utf8', True, 2, [4, 5, 64], [0x30, 0x41, 0x81, 0xEF, 0xBB, 0xBF, 0xFF]),
 ]
 BOMA = [0x41, 0x80, 0xEF, 0xBB, 0xBF, 0xFE, 0xFF]
 MC_BOM_QUICK = [
@@ -426,7 +430,7 @@ def plan_C02(rep, seed, tier):
     rv(rep, binp, 'dec-cutsets', seed, tier, shards=32 if tier == 'thorough' else 16)
     rv(rep, binp, 'dec-random', seed, tier)
     rv(rep, binp, 'dec-deep', seed, tier, shards=32 if tier == 'thorough' else 16)
-    run_mc_set(rep, binp, MC_CHUNKING_THOROUGH if tier == 'thorough' else [MC_CHUNKING_QUICK[i] for i in (0, 1, 2, 4, 5, 7, 8, 9)],
+    run_mc_set(rep, binp, MC_CHUNKING_THOROUGH if tier == 'thorough' else [MC_CHUNKING_QUICK[i] for i in (0, 1, 2, 4, 5, 7, 8, 9, 10)],
                'Layer I x DecoderMonitor: all Stage/Invoke interleavings, invariant NoViolation (prefix rule, completeness, spans, progress, no panic)')
     rep.cov['rule'] = ('all cut sets of every stream of length <= 3 (thorough: 4, plus seeded 5..7) over the per-encoding class alphabet x capacities min..min+3 and 64 '
                        'x 4 sinks x replacement x empty final call; seeded random histories with re-cuts, empty calls and queried capacities')
